@@ -5,7 +5,7 @@ from . import s2r
 
 ID = "C04"
 RULE = (
-    "every multiset of at most B ballots over the alphabet {every partial ranking of the n candidates, blank, card "
+    "two families of ballot profiles: (i) every multiset of at most B ballots over the alphabet {every partial ranking of the n candidates, blank, card "
     "lacking the contest}, grown one ballot at a time, x every reported winner (right or wrong) x both shipped difficulty "
     "functions; the returned list is judged against a brute-force reference (universe of all true NEB/NEN assertions "
     "with recounted tallies; all n! elimination orders).  Every state of size < B is additionally executed with the "
@@ -22,7 +22,8 @@ PLAN = {"quick": [(2, 6), (3, 5), (4, 2)], "thorough": [(2, 8), (3, 7), (4, 3), 
 
 
 def bounds(tier):
-    return {"(candidates, max ballots)": PLAN[tier], "alphabet_sizes": {n: len(R.rankings(n)) + 1 for n, _ in PLAN[tier]},
+    return {"weighted families (name: candidates, #types, max distinct types, weights)": {k: [v[0], len(v[1]), v[2], list(v[3])] for k, v in s2r.families(tier).items()},
+            "(candidates, max ballots)": PLAN[tier], "alphabet_sizes": {n: len(R.rankings(n)) + 1 for n, _ in PLAN[tier]},
             "winners": "all", "difficulty_functions": ["bp_estimate", "cp_estimate"]}
 
 
@@ -58,16 +59,30 @@ def judge(n, prof, winner, kind, norm, ana=None):
 
 
 def run_shard(sh, rec):
-    n, B, first = sh
+    if sh[0] == "wt":
+        _, fam, first = sh
+        n, types, K, W = s2r.families(TIER_ACTIVE)[fam]
+        gen = s2r.weighted_profiles(types, K, W, first)
+        B, maxB, weighted = None, None, True
+    else:
+        n, B, first = sh
+        gen = s2r.profiles(n, B, first)
+        maxB = max(b for m, b in PLAN_ACTIVE if m == n)
+        weighted = False
     alpha = list(R.rankings(n)) + [None]
-    for prof in s2r.profiles(n, B, first):
+    for prof in gen:
         rec.state()
         rec.trans()  # canonical extension of its (sorted) parent
         ballots = [alpha[a] for a in prof]
         pw = R.irv_possible_winners(n, ballots)
         if len(pw) > 1:
             rec.vac("profiles_with_tie")
-        for winner in range(n):
+        if weighted:  # reported winner: the real one (wrong winners are covered by the multiset family)
+            rec.vac("weighted_profiles")
+            winners = [min(pw)]
+        else:
+            winners = range(n)
+        for winner in winners:
             for kind in ("bp", "cp"):
                 norm, _, _ = s2r.call_raire(n, prof, winner, kind)
                 rec.evals()
@@ -87,7 +102,7 @@ def run_shard(sh, rec):
                     rec.vac("empty_results")
                 for key, what in v:
                     rec.violate(key, what, {"n": n, "profile": list(prof), "winner": winner, "kind": kind, "reverse": False})
-                if len(prof) < max(b for m, b in PLAN_ACTIVE if m == n):
+                if not weighted and len(prof) < maxB:
                     norm2, _, _ = s2r.call_raire(n, prof, winner, kind, reverse=True)
                     rec.evals()
                     rec.trans()
@@ -95,7 +110,7 @@ def run_shard(sh, rec):
                     if repr(norm2) != repr(norm) and sorted(map(repr, norm2)) != sorted(map(repr, norm)):
                         rec.violate("C04|result-depends-on-ballot-order", "result changes when the same ballots are supplied in reverse order",
                                     {"n": n, "profile": list(prof), "winner": winner, "kind": kind, "reverse": True})
-                if B == max(b for m, b in PLAN_ACTIVE if m == n):
+                if weighted or B == maxB:
                     rec.trace()
                 if rec.want_sample((n, prof, winner, kind)):
                     rec.sample({"candidates": n, "ballots": s2r.show_profile(n, prof), "reported_winner": s2r.NAMES[winner], "difficulty": kind,
@@ -104,12 +119,14 @@ def run_shard(sh, rec):
 
 
 PLAN_ACTIVE = PLAN["quick"]
+TIER_ACTIVE = "quick"
 
 
 def explore(tier, seed):
-    global PLAN_ACTIVE
+    global PLAN_ACTIVE, TIER_ACTIVE
     PLAN_ACTIVE = PLAN[tier]
-    return core.pmap(run_shard, s2r.shards(PLAN[tier]), seed, progress="C04")
+    TIER_ACTIVE = tier
+    return core.pmap(run_shard, s2r.weighted_shards(tier) + s2r.shards(PLAN[tier]), seed, progress="C04")
 
 
 def run_case(case):
